@@ -160,6 +160,8 @@ class Xrl:
             extra += ["-DXDRV_TRACK", "-DXDRV_FA"]
         if variant in ("asan", "msan"):
             extra += ["-DXDRV_SAN"]
+        if variant == "fa_asan":
+            extra += ["-DXDRV_SAN", "-DXDRV_FA"]
         h = os.path.join(VERIF, "harness")
         if sections:
             extra += ["-DXDRV_SECTIONS"]
@@ -172,7 +174,7 @@ class Xrl:
             self.env.update(LOCPATH=ld, XDRV_LOCALE=locale)
         if variant == "msan":
             self.env.setdefault("MSAN_OPTIONS", "halt_on_error=0:exit_code=0:print_stats=0:allocator_may_return_null=1")
-        if variant == "asan":
+        if variant in ("asan", "fa_asan"):
             self.env.setdefault("ASAN_OPTIONS", "halt_on_error=0:detect_leaks=0:abort_on_error=0:print_summary=0:allocator_may_return_null=1")
             self.env.setdefault("UBSAN_OPTIONS", "halt_on_error=0:print_stacktrace=1")
         self.nproc = nproc or min(16, os.cpu_count() or 4)
